@@ -244,6 +244,18 @@ func buildPool(c *Ctx, n int) []poolStr {
 			}
 		}
 	}
+	// line-end and blank twins: the same text followed / preceded by "\n", "\r\n", "\t", "\v", "\f", NBSP or a plain space.
+	// Only the plain space is skipped by the scanner; whatever the library decides, all entry points must decide the same.
+	base2 := len(pool)
+	for i := 0; i < base2; i += 5 {
+		p := pool[i]
+		if p.Twin > 0 || p.S == "" {
+			continue
+		}
+		for _, tw := range []string{p.S + "\n", p.S + "\r\n", "\t" + p.S, p.S + " ", " " + p.S, p.S + "\t", p.S + "\u00a0", "\ufeff" + p.S, p.S + "\x00"} {
+			pool = append(pool, poolStr{S: tw, Compound: p.Compound, Origin: "blank-twin"})
+		}
+	}
 	for i := range pool {
 		pool[i].Valid = c.Valid(pool[i].S)
 		c.CountIf(pool[i].Valid, "pool_valid")
